@@ -71,7 +71,7 @@ REQUIRED = ['mode:' + m for m in MODES] + [
     'mech:pk', 'regimen', 'unsorted', 'out_sel', 'df', 'array', 'wm', 'stat', 'ns=None',
     'kind:gauss', 'kind:lognorm', 'kind:trunc', 'kind:pooled', 'kind:hetero', 'noncentered', 'cov', 'cov:1d', 'cov:2d',
     'red', 'ns=last', 'ns!=last', 'last:hll', 'last:set', 'last:none', 'inner:pop', 'prior:table', 'prior:cont',
-    'post:poplevel', 'post:param_map', 'post:individual', 'post:default_individual', 'decoded']
+    'post:poplevel', 'post:param_map', 'post:individual', 'post:default_individual', 'decoded', 'stat:hetero_rows']
 TINY = 1e-9
 ENV_SD = 9.0
 SEEDS = st.integers(0, 2 ** 31 - 2)
@@ -199,16 +199,21 @@ def _draw_theta(draw, pop, mags, n_ids_h, cov):
 
 
 def _draw_pop(draw, mech, ems, n_cov_rows, point_only=False, allow_cov=True):
-    """Population spec over (mechanistic parameters, error parameters), covariates, parameter drawer."""
+    """Population spec over (mechanistic parameters, error parameters), covariates, parameter drawer.
+    point_only='hetero': the first part is heterogeneous (over mechanistic dimensions), at most two heterogeneous
+    parts, everything else pooled, 2-4 individuals."""
     n_par = mech['n_par']
     n_dim = n_par + _n_sig(ems)
     scales = gen.distinct(draw(gen.vec(gen.logu(0.3, 3.0), _n_sig(ems))))
     mags = ([1.0, 1.0, 0.08] if mech['kind'] == 'pk' else [1.0] * n_par) + [TINY * v for v in scales]
-    n_ids_h = draw(st.integers(1, 4))
+    n_ids_h = draw(st.integers(2 if point_only == 'hetero' else 1, 4))
     parts, d, n_cov_parts = [], 0, 0
     while d < n_dim:
         nd = draw(st.integers(1, min(3, n_dim - d)))
-        if point_only == 'pooled':
+        if point_only == 'hetero':
+            n_h = sum(1 for q in parts if q['kind'] == 'hetero')
+            kinds = ['hetero'] if n_h == 0 else ['pooled', 'hetero'] if (n_h == 1 and d < n_par) else ['pooled']
+        elif point_only == 'pooled':
             kinds = ['pooled']
         elif point_only or (mech['kind'] == 'pk' and d < n_par):
             kinds = ['pooled', 'hetero']
@@ -351,8 +356,12 @@ def _spec(draw):
 
     elif mode == 'poppred':
         noise = (not pk) and gen.chance(draw, 0.12)
-        P = _draw_pop(draw, mech, ems, ns_eff, point_only='pooled' if noise else False, allow_cov=not noise)
-        pop, rows = _finish_pop(draw, P, 1, allow_red=not noise)
+        # heterogeneous sub-domain: which individual's row a sampled patient receives is itself random (uniform,
+        # independent between patients); decided statistically on 1000 patients
+        hstat = (not pk) and (not noise) and gen.chance(draw, 0.12)
+        P = _draw_pop(draw, mech, ems, ns_eff, point_only='pooled' if noise else 'hetero' if hstat else False,
+                      allow_cov=not (noise or hstat))
+        pop, rows = _finish_pop(draw, P, 1, allow_red=not (noise or hstat))
         theta = rows[0]
         if noise:
             # ordinary sigma, every individual has the same known parameters (all dimensions pooled)
@@ -364,6 +373,8 @@ def _spec(draw):
         s['last'] = _draw_history(draw, pop, P['n_ids_h'], ns_eff)
         if not noise and not pk and any(_cont_mech_dims(pop, mech['n_par'])) and gen.chance(draw, 0.35):
             s['stat'] = True
+        if hstat:
+            s['stat'] = s['hstat'] = True
 
     elif mode == 'prior':
         inner = 'pop' if gen.chance(draw, 0.35) else 'plain'
@@ -996,7 +1007,8 @@ def _decode_pop(mech, ems, pop, n_ids_h, thetas, cov_rows, Y):
     combos = list(itertools.product(range(n_ids_h), repeat=len(hl)))
     R = dict(ok=np.zeros(N, dtype=bool), und=np.zeros(N, dtype=bool), label=-np.ones(N, dtype=int),
              psi=np.full((N, n_par), np.nan), A=np.full((N, n_par), np.nan), B=np.full((N, n_par), np.nan),
-             tol=np.full(Y.shape, np.nan), kinds=None, U=U, hyps=[], chi2=np.full(N, np.inf))
+             tol=np.full(Y.shape, np.nan), kinds=None, U=U, hyps=[], chi2=np.full(N, np.inf),
+             combo=-np.ones((N, max(1, len(hl))), dtype=int), hl=hl)
     glo = np.full((N, n_par), np.inf)
     ghi = np.full((N, n_par), -np.inf)
     smax = np.zeros((N, n_dim - n_par))
@@ -1054,6 +1066,8 @@ def _decode_pop(mech, ems, pop, n_ids_h, thetas, cov_rows, Y):
                 R['chi2'][idx] = chi2[passed]
                 R['ok'][idx] = True
                 R['label'][idx] = k
+                if hl:
+                    R['combo'][idx] = np.array(combo, dtype=int)
                 R['psi'][idx] = psi_hat[passed]
                 R['A'][idx] = A[idx][:, :n_par]
                 R['B'][idx] = Bm[idx][:, :n_par]
@@ -1178,6 +1192,44 @@ def _judge_pop(case, mech, ems, R, Y, what):
     if dg is not None and dg[0] != 'admissible':
         case.fail(dg[0], '%s: %s' % (what, dg[1]))
     raise Inconclusive()
+
+
+def _hetero_tests(mech, ems, s, cov_rows, Y):
+    """Heterogeneous sub-domain (no continuous dimensions, distinct outputs for distinct rows): the row of every
+    heterogeneous part that a patient received is decoded exactly. Under the documented process ('randomly drawn from
+    the n_ids individuals') the rows r_1..r_N are independent and uniform on Z_K, hence so are the consecutive
+    differences r_{i+1} - r_i mod K. Returns two-stage entries; {} if a patient could not be decoded uniquely (the
+    membership clause reports that)."""
+    K = s['n_ids_h']
+    R = _decode_pop(mech, ems, s['pop'], K, [s['theta']], cov_rows, Y)
+    if R['U'] or not R['hl'] or not np.all(R['ok']):
+        return {}
+    # uniqueness of the decoding: the candidate outputs of different row choices differ by more than the tolerance
+    cand = np.array([np.real(mech.Fb(h[2][:1, :mech.m['n_par']]))[0] for h in R['hyps']])
+    tol = np.nanmax(R['tol'])
+    for a in range(len(cand)):
+        for b in range(a + 1, len(cand)):
+            same_mech = np.all(R['hyps'][a][2][0, :mech.m['n_par']] == R['hyps'][b][2][0, :mech.m['n_par']])
+            if not same_mech and np.all(np.abs(cand[a] - cand[b]) <= 20 * tol):
+                return {}
+    out = {}
+    n_par = mech.m['n_par']
+    leaves = _leaves(s['pop'], K)
+    for pos, li in enumerate(R['hl']):
+        if leaves[li]['d0'] >= n_par:
+            continue                      # a heterogeneous part over error parameters only is not observable here
+        r = R['combo'][:, pos]
+        counts = [int(np.sum(r == k)) for k in range(K)]
+        p, d = stats.chi2_freq(counts)
+        out[('hetero_row_freq', pos)] = (p, 'chi2', 'heterogeneous part %d: individuals chosen per patient (uniform '
+                                         'expected): %s' % (pos, d))
+        diff = (r[1:] - r[:-1]) % K
+        counts = [int(np.sum(diff == k)) for k in range(K)]
+        p, d = stats.chi2_freq(counts)
+        out[('hetero_row_indep', pos)] = (p, 'chi2', 'heterogeneous part %d: (row of patient i+1) - (row of patient '
+                                          'i) mod %d, uniform if the patients are independent draws: %s; first rows '
+                                          '%s' % (pos, K, d, r[:12].tolist()))
+    return out
 
 
 # =============================================================================================
@@ -1527,6 +1579,10 @@ def check(case):
             # population distribution at each id's covariates, pushed through the reference outputs (the error
             # scale is 1e-9). No inversion is involved (the analytic model is not injective everywhere).
             nn = v.shape[2]
+            if s.get('hstat'):
+                # atoms only (the two-sample test would compare noisy atoms with noise-free ones): the rows are
+                # decoded exactly instead
+                return _hetero_tests(mech, ems, s, B.cov_rows(nn), np.transpose(v, (2, 0, 1)))
             rng = np.random.default_rng(stats.derive_seed(seed, 'reference', nn))
             rep = 4
             psi = _ref_population(s['pop'], s['n_ids_h'], full, np.tile(B.cov_rows(nn), (rep, 1)), rng)
@@ -1587,6 +1643,8 @@ def classify(spec):
     labs.append('wm' if s['wm'] else 'ordinary_sigma')
     if s['stat']:
         labs.append('stat')
+    if s.get('hstat'):
+        labs.append('stat:hetero_rows')
     if s['ns'] is None and not s['stat']:
         labs.append('ns=None')
     if 'pop' in s:
